@@ -71,6 +71,7 @@ def make_src(world, sid, spec):
     msgs = spec["msgs"]
     rude = bool(spec.get("rude"))
 
+    sub_ids = spec.get("sub_ids")       # the SAME observable object listed / delivered several times: id of its k-th subscription
     resub = bool(spec.get("resub"))      # the j-th subscription of this observable is source id j (repeat / retry / while_do)
     per_sub = spec.get("per_sub")        # cold only: a different timeline for each successive subscription
 
@@ -109,7 +110,7 @@ def make_src(world, sid, spec):
                 o.on_completed()
 
         def _subscribe_core(self, observer, scheduler=None):
-            my = (sid + self.nsub) if resub else sid
+            my = (sid + self.nsub) if resub else (sub_ids[min(self.nsub, len(sub_ids) - 1)] if sub_ids else sid)
             mine = msgs if per_sub is None else per_sub[min(self.nsub, len(per_sub) - 1)]
             self.nsub += 1
             world.log.append(["sub", my, world.now()])
@@ -153,6 +154,37 @@ def make_src(world, sid, spec):
         world.srcs = {}
     world.srcs[sid] = src
     return src
+
+
+def build_sources(world, specs, base=0, order=None):
+    """one observable per position; a spec with "same_as": j is THE SAME OBJECT as position j (listed twice): its k-th subscription
+    (in the operator's subscription order `order`) logs the id of the position it was subscribed for"""
+    n = len(specs)
+    order = list(order) if order is not None else list(range(n))
+    objs = [None] * n
+    for j, sp in enumerate(specs):
+        if "same_as" in sp:
+            continue
+        grp = [j] + [i for i, s2 in enumerate(specs) if s2.get("same_as") == j]
+        if len(grp) > 1:
+            grp.sort(key=order.index)
+            sp = dict(sp, sub_ids=[base + g for g in grp])
+        objs[j] = make_src(world, base + j, sp)
+    for i, sp in enumerate(specs):
+        if "same_as" in sp:
+            objs[i] = objs[sp["same_as"]]
+    return objs
+
+
+def add_duplicate(rng, specs, p=0.12):
+    """with probability p list one of the (cold / hot) sources a second time"""
+    n = len(specs)
+    if n < 2 or rng.random() >= p:
+        return
+    j = rng.randrange(0, n - 1)
+    i = rng.randrange(j + 1, n)
+    if specs[j].get("mode") in ("cold", "hot") and "same_as" not in specs[j] and not specs[j].get("resub"):
+        specs[i] = dict(specs[j], same_as=j)
 
 
 def make_timer_src(world, sid, spec):
@@ -242,10 +274,17 @@ def run_second_subscriber(make_world_and_build, second):
         if with_second:
             sched.schedule_absolute(max(second["sub2"], SUBSCRIBE_AT + 1), sub("b"))
         sched.schedule_absolute(END, lambda *_: sched.stop())
-        sched.start()
+        try:
+            sched.start()
+        except Exception as ex:  # an observation (reported for both subscribers), not a harness failure
+            for t in outs:
+                outs[t].append([world.now(), ["X", "escaped:" + type(ex).__name__]])
         for t in ("a", "b"):
-            if t in holder:
-                holder[t].dispose()
+            try:
+                if t in holder:
+                    holder[t].dispose()
+            except Exception:
+                pass
         return {t: [o for o in outs[t] if o[0] <= END] for t in outs}
 
     both = outputs_of(True, True)
@@ -344,10 +383,16 @@ def run_world(world, build, dispose=None, cut=None, inline=False, react=None):
         td = max(dispose[0], SUBSCRIBE_AT + 1)
         sched.schedule_absolute(td - 1, lambda *_: sched.schedule_absolute(td, do_dispose))
     sched.schedule_absolute(END, lambda *_: sched.stop())
-    sched.start()
+    try:
+        sched.start()
+    except Exception as ex:  # an exception escaping from the operator into the scheduler is an observation, not a harness failure
+        log.append(["out", ["X", "escaped:" + type(ex).__name__], world.now()])
     n = len(log)
-    if "d" in holder:
-        holder["d"].dispose()   # cancel whatever is still pending (e.g. wall-clock timers of a broken scheduler hand-over)
+    try:
+        if "d" in holder:
+            holder["d"].dispose()   # cancel whatever is still pending (e.g. wall-clock timers of a broken scheduler hand-over)
+    except Exception:
+        pass
     del log[n:]
     return log
 
@@ -434,6 +479,8 @@ def intervals(log):
 def grammar_ok(out):
     """next* (error|completed)?"""
     for i, (_, n) in enumerate(out):
+        if n[0] == "X":
+            return False          # an exception escaped from the operator
         if n[0] != "N" and i != len(out) - 1:
             return False
     return True
@@ -506,7 +553,7 @@ def gen_dispose(rng, p=0.25):
 
 
 # --------------------------------------------------------------------------------------------- higher-order runs (C11, C12)
-def gen_ho_case(rng, op, max_inner=4, allow_sync=True, p_rude=0.15, p_timer=0.0):
+def gen_ho_case(rng, op, max_inner=4, allow_sync=True, p_rude=0.15, p_timer=0.0, p_same=0.2):
     """outer source 0 whose elements name the inner sources 1..m; optional mapper table with raising entries."""
     m = rng.choice([0, 1, 2, 2, 3, 3, max_inner])
     ids = list(range(1, m + 1))
@@ -523,9 +570,21 @@ def gen_ho_case(rng, op, max_inner=4, allow_sync=True, p_rude=0.15, p_timer=0.0)
     elif r < 0.75:
         msgs.append([last + 5 * rng.randint(0, 8), "E", "e0"])
     outer = {"mode": "hot" if hot else "cold", "msgs": msgs}
+    if op != "rx_merge" and rng.random() < 0.15:
+        # an outer that emits (and usually completes) synchronously inside its own subscribe: a finished ReplaySubject, from_iterable
+        # on the immediate scheduler, of(...)
+        outer = {"mode": "sync", "msgs": [[0] + m_[1:] for m_ in msgs]}
     inners = {}
     for i in range(1, m + 1):
         inners[str(i)] = gen_src(rng, i, allow_sync=allow_sync, p_rude=p_rude, p_timer=p_timer, span=30, p_complete=0.7, p_error=0.12)
+    # the very SAME inner observable object delivered again (while its earlier subscription may still be running)
+    if m >= 2 and rng.random() < p_same:
+        arrival = [m_[2] for m_ in msgs if m_[1] == "N"]
+        a, b = arrival[rng.randrange(0, m - 1)], None
+        later = arrival[arrival.index(a) + 1:]
+        b = rng.choice(later)
+        if inners[str(a)]["mode"] in ("cold", "hot"):
+            inners[str(b)] = {"mode": inners[str(a)]["mode"], "same_as": a, "msgs": []}
     case = {"op": op, "outer": outer, "inners": inners, "dispose": gen_dispose(rng, 0.2)}
     if op in ("flat_map", "flat_map_indexed", "concat_map", "switch_map", "switch_map_indexed", "flat_map_latest") and ids and rng.random() < 0.25:
         case["raise_on"] = rng.choice(ids)   # the mapper raises on this outer element
@@ -533,7 +592,56 @@ def gen_ho_case(rng, op, max_inner=4, allow_sync=True, p_rude=0.15, p_timer=0.0)
 
 
 def sync_ids_of(case):
+    if case.get("outer", {}).get("mode") == "sync":
+        # while the outer delivers from inside its own subscribe the operator's subscribe has not returned: whatever a terminal
+        # closes is closed only when it returns - every unsubscribe of such a case is compared by (source, time) only
+        return tuple([0] + [int(k) for k in case["inners"]])
     return tuple(int(k) for k, s in case["inners"].items() if s["mode"] == "sync")
+
+
+def outer_delivers_after_end(case, log):
+    """a synchronous outer cannot be stopped while it is inside its own subscribe: it may go on delivering after the result ended
+    (the operator then still subscribes - and at once closes - the inners it is handed). The flat trace machine closes a source at
+    the terminal; such runs are oracle-only."""
+    if case.get("outer", {}).get("mode") != "sync":
+        return False
+    ended = False
+    for e in log:
+        if e[0] == "dispose" or (e[0] == "out" and e[1][0] != "N"):
+            ended = True
+        elif ended and e[0] == "ev" and e[1] == 0:
+            return True
+    return False
+
+
+def same_group(case, k):
+    """ids that are subscriptions of the same observable object as inner k"""
+    s_ = case["inners"].get(str(k), {})
+    base = s_.get("same_as", k)
+    return {base} | {int(k2) for k2, s2 in case["inners"].items() if s2.get("same_as") == base}
+
+
+def shrink_ho(case):
+    import copy
+    for k in list(case["inners"]):
+        s_ = case["inners"][k]
+        for j in range(len(s_.get("msgs", []))):
+            c = copy.deepcopy(case)
+            del c["inners"][k]["msgs"][j]
+            yield c
+    for j, m_ in enumerate(case["outer"]["msgs"]):
+        c = copy.deepcopy(case)
+        del c["outer"]["msgs"][j]
+        if m_[1] == "N":
+            gone = {m_[2]} | {int(k2) for k2, s2 in c["inners"].items() if s2.get("same_as") == m_[2]}
+            c["outer"]["msgs"] = [x for x in c["outer"]["msgs"] if not (x[1] == "N" and x[2] in gone)]
+            for g in gone:
+                c["inners"].pop(str(g), None)
+        yield c
+    if case.get("dispose") is not None:
+        c = copy.deepcopy(case)
+        c["dispose"] = None
+        yield c
 
 
 _MEMO = {}
@@ -588,7 +696,18 @@ def ho_world_and_build(case):
     idx_seen = []
 
     def build():
-        inners = {int(k): make_src(w, int(k), s) for k, s in case["inners"].items()}
+        arrival = [m_[2] for m_ in case["outer"]["msgs"] if m_[1] == "N"]
+        inners = {}
+        for k, s_ in case["inners"].items():
+            if "same_as" not in s_:
+                same = [int(k2) for k2, s2 in case["inners"].items() if s2.get("same_as") == int(k)]
+                if same:
+                    ids_ = sorted([int(k)] + same, key=lambda i_: arrival.index(i_) if i_ in arrival else 10 ** 6)
+                    s_ = dict(s_, sub_ids=ids_)
+                inners[int(k)] = make_src(w, int(k), s_)
+        for k, s_ in case["inners"].items():
+            if "same_as" in s_:
+                inners[int(k)] = inners[s_["same_as"]]      # the same object
 
         def mapper(i):
             if i == raise_on:
@@ -603,10 +722,15 @@ def ho_world_and_build(case):
             # rx.merge(*sources) = from_iterable(sources).pipe(merge_all()): tap the internal from_iterable as source 0
             order = [m[2] for m in case["outer"]["msgs"] if m[1] == "N"]
             orig = rx.from_iterable
-            ident = {id(inners[i]): i for i in order}
+            pos = [0]
+
+            def next_id(v):
+                i = order[min(pos[0], len(order) - 1)]      # the k-th element of the internal from_iterable is the k-th listed source
+                pos[0] += 1
+                return i
 
             def tapped(it, scheduler=None):
-                return make_tap(w, 0, orig(it, scheduler), value_id=lambda v: ident[id(v)])
+                return make_tap(w, 0, orig(it, scheduler), value_id=next_id)
 
             rx.from_iterable = tapped
             try:
